@@ -410,7 +410,7 @@ def main(argv):
     if a.replay:
         return runner.do_replay(PID, replay_case, a.replay)
     chk = Check(PID, "exploration", RULE, ASSUME)
-    n = a.modules or chk.pick(500, 12000)
+    n = a.modules or chk.pick(1500, 12000)
     try:
         chk.extra_coverage["randomize_va_space"] = open("/proc/sys/kernel/randomize_va_space").read().strip()
     except OSError:
